@@ -31,12 +31,17 @@ func sensitivity(args []string) int {
 	missed := 0
 	for _, mf := range dirs {
 		var meta struct {
-			ID   string `json:"id"`
-			Prop string `json:"breaks_property"`
+			ID     string `json:"id"`
+			Prop   string `json:"breaks_property"`
+			Missed bool   `json:"missed"`
 		}
 		b, _ := os.ReadFile(mf)
 		json.Unmarshal(b, &meta)
 		if len(args) > 0 && !strings.Contains(meta.ID, args[0]) {
+			continue
+		}
+		if meta.Missed {
+			fmt.Printf("SENSITIVITY %-45s %s  KNOWN-MISS (recorded as a limit, see DESIGN section 13 and 17)\n", meta.ID, meta.Prop)
 			continue
 		}
 		wt, err := os.MkdirTemp("", "verif-sens-")
